@@ -521,9 +521,9 @@ def spec_body(spec):
             w.ensure('frame: the specification arrays are not written to',
                      w.And(*[w.eq(kw[c][0] + kw[c][1], 1.0) for c in kw if c in 'xy']))
             if 'T' in kw:
-                w.canary('canary: T after the flash = T before', w.eq(s.T, T0))
+                w.canary('canary: T after the flash = T before + 1 K', w.eq(s.T, T0 + 1.))
             else:
-                w.canary('canary: P after the flash = P before', w.eq(s.P, P0))
+                w.canary('canary: P after the flash = P before + 1 Pa', w.eq(s.P, P0 + 1.))
             w.note(calls=dict(env.calls), T=s.T, P=s.P)
         finally:
             env.restore()
@@ -658,7 +658,7 @@ def kpose_configs(tier):
     ns = (2, 3) if tier == 'quick' else (2, 3, 4)
     for n in ns:
         for light, heavy in ((False, False), (True, False), (False, True), (True, True)):
-            if tier == 'quick' and n == 3 and light != heavy:
+            if (tier == 'quick' and n == 3 or n == 4) and light != heavy:
                 continue
             out.append({'name': f'xVlogK_iter N={n};light={light};heavy={heavy}', 'fn': 'N', 'n': n, 'light': light, 'heavy': heavy})
     return out
@@ -771,7 +771,10 @@ def corr_configs(var):
             fam += [('WE', {'W': '03', 'E': '50'}, 0, 'interior')]          # concrete feed amounts: linear arithmetic, cheap
         if tier == 'thorough':
             fam += [('WE', {'W': '0+', 'E': '+0'}, 0, 'interior'), ('WE', {'W': '0+', 'E': '+0'}, 1, 'interior'),
-                    ('WEN', {'W': '0+', 'E': '0+', 'N': '+0'}, 0, 'interior'), ('WEX', {'W': '+0', 'E': '0+', 'X': '0+'}, 0, 'interior'),
+                    ('WEN', {'W': '0+', 'E': '0+', 'N': '+0'}, 0, 'interior')]
+            if var == 'H':      # (the S variant of this configuration alone takes ~8 min: twice the paths, entropy terms in every branch query)
+                fam += [('WEX', {'W': '+0', 'E': '0+', 'X': '0+'}, 0, 'interior')]
+            fam += [
                     ('WEM', {'W': '03', 'E': '50', 'M': '22'}, 1, 'interior'),
                     ('WENX', {'W': '03', 'E': '50', 'N': '10', 'X': '01'}, 1, 'interior')]
         return [{'name': f'{keys}/{_dist_name(d, keys)}/k={k}/v={v}', 'pkg': keys, 'dist': d, 'k': k, 'v': v} for keys, d, k, v in fam]
@@ -956,7 +959,7 @@ def scaling_configs(tier):
            ('TP', 'WX', {'W': '0+', 'X': '0+'}, 0, 'floor')]
     if tier == 'thorough':
         fam += [('TP', 'WE', {'W': '0+', 'E': '+0'}, 0, 'any'), ('TP', 'WEX', {'W': '0+', 'E': '+0', 'X': '0+'}, 0, 'floor'),
-                ('TP', 'WENX', {'W': '0+', 'E': '+0', 'N': '+0', 'X': '0+'}, 0, 'floor'), ('TP', 'WE', {'W': '++', 'E': '++'}, 0, 'floor'),
+                ('TP', 'WENX', {'W': '0+', 'E': '+0', 'N': '+0', 'X': '0+'}, 0, 'floor'),
                 ('TP', 'W', {'W': '++'}, 0, 'floor'), ('TP', 'WN', {'W': '0+', 'N': '+0'}, 0, 'floor')]
     return [{'name': f'{spec}/{keys}/{_dist_name(d, keys)}/k={k}/Kguess={g}', 'spec': spec, 'pkg': keys, 'dist': d, 'k': k, 'kguess': g}
             for spec, keys, d, k, g in fam]
@@ -1189,7 +1192,8 @@ def fugacity_mismatch(s, IDs):
 
 
 def totals_of(s):
-    return s.imol['l'] + s.imol['g'] if False else (np.asarray(s.imol['l'].to_array()) + np.asarray(s.imol['g'].to_array()))
+    """Total molar flow of every chemical over both phases (dense array)."""
+    return np.asarray(s.imol['l'].to_array()) + np.asarray(s.imol['g'].to_array())
 
 
 T_GRID_QUICK = (300., 350., 400.)
@@ -1371,12 +1375,10 @@ def b_HS_configs(tier):
 def _bracket(IDs, z, extras, fixed, value, var):
     """All-liquid and all-vapour values of H or S at fixed P (or T): the boundaries of the two-phase range of the specification."""
     vals = []
-    other = None
     for V in (0., 1.):
         s = b_stream(IDs, z, extras=extras)
         flash(s, **{'V': V, fixed: value})
         vals.append(getattr(s, var))
-        other = s.T if fixed == 'P' else s.P
     return vals[0], vals[1]
 
 
